@@ -92,7 +92,7 @@ def run_harness(exe, lines, chunk=256, par=None, timeout=3000):
     def one(k):
         if not shards[k]:
             return ""
-        env = dict(os.environ, ASAN_OPTIONS="detect_leaks=0:allocator_may_return_null=1", C12_ERRFILE=os.path.join(sd, "err%d.txt" % k))
+        env = dict(os.environ, ASAN_OPTIONS="detect_leaks=0:allocator_may_return_null=1:symbolize=0", UBSAN_OPTIONS="symbolize=0", C12_ERRFILE=os.path.join(sd, "err%d.txt" % k))
         p = subprocess.run([exe, str(chunk)], input=("".join(l + "\n" for l in shards[k])).encode(), stdout=subprocess.PIPE,
                            stderr=subprocess.PIPE, timeout=timeout, env=env)
         out = p.stdout.decode("utf-8", "replace")
@@ -105,7 +105,7 @@ def run_harness(exe, lines, chunk=256, par=None, timeout=3000):
         outs = list(ex.map(one, range(par)))
     import shutil
     shutil.rmtree(sd, ignore_errors=True)
-    res = {"FAIL": [], "CRASH": [], "ENC": {}, "MUT": {}, "ACC": [], "MCRASH": [], "DV": {}}
+    res = {"FAIL": [], "CRASH": [], "ENC": {}, "MUT": {}, "ACC": [], "MCRASH": [], "DV": {}, "MUTENC": {}, "MCAPPED": []}
     for out in outs:
         for l in out.splitlines():
             t = l.split(" ", 2)
@@ -119,6 +119,11 @@ def run_harness(exe, lines, chunk=256, par=None, timeout=3000):
             elif t[0] == "MUT":
                 f = l.split(" ")
                 res["MUT"][int(f[1])] = (int(f[2]), int(f[3]), int(f[4]), bytes.fromhex(f[5]) if len(f) > 5 else b"")
+            elif t[0] == "MUTENC":
+                f = l.split(" ")
+                res["MUTENC"][int(f[1])] = bytes.fromhex(f[2]) if len(f) > 2 else b""
+            elif t[0] == "MCAPPED":
+                res["MCAPPED"].append(int(t[1]))
             elif t[0] == "ACC":
                 f = l.split(" ")
                 res["ACC"].append((int(f[1]), f[2], int(f[3]), int(f[4]), int(f[5])))
@@ -274,13 +279,7 @@ def model_and_replay(cx, win, kind, cfgs, env, exe, exe_as, mutate=None):
         bad_ids.setdefault(i, []).append("sanitizer/crash: " + msg)
     # rule 5: re-run failing cases once, alone
     if bad_ids:
-        ids = sorted(bad_ids)
-        again = run_harness(exe, [lines[i] for i in ids], chunk=1)
-        still = {i for i, _ in again["FAIL"]} | {i for i, _ in again["CRASH"]}
-        for i in ids:
-            if i not in still:
-                cx.notes.append("case %d failed once and passed on re-run (not reported)" % i)
-                continue
+        def fkey(i):
             key, mk, awhy, mres = info[i]
             lab = labels.get(key)
             fk = KEY_BAD.get(lab) if lab else None
@@ -289,10 +288,22 @@ def model_and_replay(cx, win, kind, cfgs, env, exe, exe_as, mutate=None):
                 fk = KEY_WHY.get(awhy)
             if fk is None:
                 fk = san_key(msgs) if "sanitizer/crash" in msgs else "reduce:model_mismatch:" + ("accept_expected" if lines[i].split()[2] == "1" else "reject_expected")
+            return fk, lab, msgs
+        # a known finding is not reported, so it is not re-run either
+        ids = [i for i in sorted(bad_ids) if not ck.findings.is_known(PROP, fkey(i)[0])]
+        again = run_harness(exe, [lines[i] for i in ids], chunk=1) if ids else {"FAIL": [], "CRASH": []}
+        still = {i for i, _ in again["FAIL"]} | {i for i, _ in again["CRASH"]}
+        for i in sorted(bad_ids):
+            if i in ids and i not in still:
+                cx.notes.append("case %d failed once and passed on re-run (not reported)" % i)
+                continue
+            key, mk, awhy, mres = info[i]
+            fk, lab, msgs = fkey(i)
             cx.violation(fk, "window %s %s stream [%s] (%s): %s" % (win, kind, key, mk, msgs),
                          {"kind": "D", "window": win, "line": lines[i], "model_class_as_written": lab, "abs_reason": awhy})
     # assertion-enabled build: the streams on which the as-written model records a failing assertion
-    asl = [lines[i] for i in range(len(lines)) if labels.get(info[i][0]) == "uint5"][:20000]
+    asl = [lines[i] for i in range(len(lines)) if labels.get(info[i][0]) == "uint5"]
+    asl = asl[::max(1, len(asl) // 1500)]
     if asl and exe_as:
         ra = run_harness(exe_as, asl)
         ck.add("replayed_assert_build", len(asl))
@@ -459,14 +470,15 @@ def corrupt(cx, win, exe, inputs, cfg, strides, parse_max=None):
                              {"kind": "M1", "window": win, "input": list(inputs[i][1][:100000]), "input_len": len(inputs[i][1]),
                               "mut": [kind, pos, val]})
     ck.add("corruptions_with_sanitizer_report_%s" % win, len(res["MCRASH"]))
+    ck.add("inputs_abandoned_after_16_sanitizer_reports", len(res["MCAPPED"]))
     # accepted corruptions: benign only if TLC says "valid stream with the original meaning"
     cases, meta = [], []
     for i, kind, pos, val, eq in res["ACC"]:
-        enc = res["MUT"][i][3] if i in res["MUT"] else None
+        enc = res["MUT"][i][3] if i in res["MUT"] else res["MUTENC"].get(i)
         if enc is None:
             continue
         m = mutated(enc, kind, pos, val)
-        if parse_max is not None and len(m) > parse_max:
+        if parse_max is not None and len(m) > max(parse_max, 60000):
             cx.violation("reduce:accepted_corruption_unarbitrated", "%s: %s at %d of encoding of %r accepted (output %s original); too long for the TLC parse"
                          % (win, kind, pos, inputs[i][0], "=" if eq else "#"), {"kind": "M1", "window": win, "input": list(inputs[i][1][:100000]),
                                                                                "input_len": len(inputs[i][1]), "mut": [kind, pos, val]})
